@@ -86,7 +86,6 @@ def decode(val: t.Any, *, encoding: str = constants.DEFAULT_ENCODING) -> t.Any:
     return val
 
 
-@compat.lru_cache(maxsize=100_000)
 def isoformat(dt: datetime.date | datetime.time | datetime.timedelta) -> str:
     """Format any date/time object into an ISO-8601 string.
 
